@@ -750,6 +750,13 @@ func checkC19(w *World, r *Recorder) propInfo {
 	// go-cose error or the missing-envelope guard (C03-S6 run again under this
 	// property), not some other state an earlier operation left in the Evidence
 	importRules(w, r, checkC03, "C19-Y10", func(o *Oblig) bool { return o.Rule == "C03-S6" })
+	// Y13: "after a failed signing attempt verification fails": the envelope a
+	// failed attempt leaves (Y1: fresh and unsigned) is rejected only by go-cose
+	// (ErrEmptySignature), so Verify may return nil only where the one
+	// Sign1Message.Verify call on e.message returned nil — a Verify that maps
+	// some of go-cose's errors and lets the others fall through succeeds on the
+	// unsigned envelope (C02-V3 run again under this property)
+	importRules(w, r, checkC02, "C19-Y13", func(o *Oblig) bool { return o.Rule == "C02-V3" })
 	// Y11: the attached claims of a decoded Evidence are the decoding of the
 	// payload and nothing more: the claims decoders are twins of the encoders
 	// and clear the pre-populated profile before decoding (C09-I1 / I1c / I2) — a
